@@ -84,8 +84,9 @@ Proof.
     + inversion H; subst. eapply Istep_nil; [exact HI|apply keeps_refl].
     + destruct (value_by_tag d tag_MsgSeqNum) as [sb| | |]; try (inversion H; subst; eapply Istep_nil; [exact HI|apply keeps_refl]).
       destruct (atoi sb) as [q|]; try (inversion H; subst; eapply Istep_nil; [exact HI|apply keeps_refl]).
-      destruct (value_by_tag d tag_MsgType); inversion H; subst; eapply Istep_nil; try exact HI;
-        [apply keeps_upd_cnt_in|apply keeps_refl|apply keeps_refl|apply keeps_refl].
+      destruct (value_by_tag d tag_MsgType) as [mt| | |]; try (inversion H; subst; eapply Istep_nil; [exact HI|apply keeps_refl]).
+      destruct (c_seqreset cfg && beq mt msgtype_SequenceReset); inversion H; subst; eapply Istep_nil; try exact HI;
+        [apply keeps_refl|apply keeps_upd_cnt_in].
   - (* HResend *)
     destruct (parse_as msgtype_ResendRequest tpl_ResendRequest d) as [rm| | |]; try (I_reject HI H).
     destruct (negb (is_logged s)); [I_reject HI H|].
